@@ -7,6 +7,7 @@ MODELS = [
     "heed model (/verif/models/heed): <=6-slot store, byte-ordered keys, LMDB-like cursors, APPEND => KeyExist iff key <= max key",
     "roaring model (/verif/models/roaring): u64 bit-set over ids 0..64",
     "tempfile/memmap2 models: bounded in-memory file, pass-through BufWriter",
+    "tracing model: logging macros expand to nothing",
 ]
 
 OBLIGATIONS = []
@@ -36,6 +37,46 @@ K("prefix_scopes_exactly_one_index", ["C07"], KEYF,
 K("tree_range_is_exactly_the_tree_keys", ["C07"], KEYF,
   "Tree(i,0)..=Tree(i,u32::MAX) contains exactly the tree keys of index i",
   "all (i, key): exhaustive", timeout=300, site="Key::tree range")
+
+# ---------------------------------------------------------------- item store W/R (C05 C06 C07 C19)
+ITF = ["writer.verif_items.rs"]
+ST3 = "symbolic store: 3 arbitrary entries (any index/kind/id, value <= 16 bytes) + the call's own; dim 2; all f32 bit patterns"
+for _n, _d in (("add_item_euclidean", "Euclidean"), ("add_item_manhattan", "Manhattan"), ("add_item_dot_product", "DotProduct")):
+    K(_n, ["C05", "C06", "C07"], ITF,
+      f"Writer::<{_d}>::add_item stores tag|header|vector bytes verbatim under (index, Item, id), writes the updated mark, and leaves every other entry byte-identical",
+      ST3, site="Writer::add_item")
+K("add_item_bq_euclidean", ["C05", "C12", "C07"], ITF,
+  "Writer::<BinaryQuantizedEuclidean>::add_item stores the sign pattern (bit i = sign bit of x_i clear) zero padded to 64 bits",
+  "symbolic store: 2 entries; dim 3; all f32 bit patterns", site="Writer::add_item")
+K("add_append_wrong_length_rejected", ["C19"], ITF,
+  "add_item/append_item with len != dim return InvalidVecDimension{expected: dim, received: len}; store byte-identical, no write attempted",
+  "dim 1..=4, len 0..=6, symbolic store of 3 entries", site="Writer::add_item/append_item")
+K("append_item_contract", ["C19", "C05", "C06", "C07"], ITF,
+  "append_item succeeds iff the new item key sorts after every key of the whole store (any index) and then equals add_item; else InvalidItemAppend and no change",
+  ST3, site="Writer::append_item")
+K("del_item_contract", ["C05", "C06", "C19", "C07"], ITF,
+  "del_item returns whether the item key existed; if so the key is gone and the updated mark is written; otherwise nothing changes and nothing is written",
+  "symbolic store: 4 entries", site="Writer::del_item")
+K("clear_contract", ["C05", "C06", "C07"], ITF,
+  "clear removes every entry of the writer's index and leaves every entry of any other index byte-identical",
+  "symbolic store: 5 entries, any indexes incl. neighbours and 65535", site="Writer::clear")
+K("need_build_contract", ["C06", "C07"], ITF,
+  "need_build <=> an updated mark of this index exists or the metadata record is missing",
+  "symbolic store: 4 entries", site="Writer::need_build")
+K("contains_item_contract", ["C05", "C07"], ITF,
+  "contains_item <=> the (index, Item, id) key exists", "symbolic store: 4 entries", site="Writer::contains_item")
+K("item_vector_contract", ["C05"], ITF,
+  "Writer::item_vector returns the stored vector bit-for-bit at the declared dimension, None when absent",
+  "symbolic store: 2 entries + 1 leaf with arbitrary bytes; dim 2", site="Writer::item_vector")
+K("reset_updated_contract", ["C06", "C07"], ITF,
+  "reset_and_retrieve_updated_items removes exactly this index's updated marks, returns their ids, everything else byte-identical",
+  "symbolic store: 4 entries; mark ids < 64 (bit-set model)", site="Writer::reset_and_retrieve_updated_items")
+K("item_indices_contract", ["C05", "C07"], ITF,
+  "item_indices = the ids of this index's item keys; store unchanged",
+  "symbolic store: 4 entries; ids < 64", site="Writer::item_indices")
+K("used_tree_node_contract", ["C07", "C13"], ITF,
+  "used_tree_node = the ids of this index's tree keys",
+  "symbolic store: 4 entries; ids < 64", site="Writer::used_tree_node")
 
 PROPS = {}
 
